@@ -160,6 +160,37 @@ static const char *check_ftoa_text(ld x, float fx, int prec8, const char *s, siz
     return 0;
 }
 
+// ROUND 3b: the canonical "nearest decimal" of an argument (glibc printf is correctly rounded, ties to even on the
+// exact binary value): `-` exactly for arguments below zero
+static std::string canon_dec(double x, int p)
+{
+    char g[512];
+    snprintf(g, sizeof g, "%.*f", p, fabs(x));
+    return std::string(x < 0 ? "-" : "") + g;
+}
+static int eff_prec(float fx, int prec8)
+{
+    int p = prec8 > 10 ? 10 : prec8;
+    if (p < 0) p = auto_prec(fabsf(fx));
+    return p;
+}
+// compared result of a renderer op: canonical text, returned offset, verdict of the oracle on the text written
+static std::string canon_ftoa(ld x, float fx, int prec8, long ret, bool within)
+{
+    std::string c = std::isnan(fx) || std::isnan((double)x) ? "nan" : std::isinf((double)x) ? (x > 0 ? "+inf" : "-inf") : canon_dec((double)x, eff_prec(fx, prec8));
+    return hex(c) + " r" + std::to_string(ret) + (within ? " within" : " outside");
+}
+static std::string twin_f32toa(float f, int8_t precision);
+// the precision clamp, measured: fraction digits of 0.1f rendered with precision 127
+static int measured_max_precision()
+{
+    char b[200];
+    memset(b, 0, sizeof b);
+    igris_f32toa(0.1f, b, 127);
+    const char *dot = strchr(b, '.');
+    return dot ? (int)strlen(dot + 1) : 0;
+}
+
 struct ftoa_out { std::string text; long ret; bool clean; };
 // kind 0: f32toa, 1: f64toa, 2: ftoa
 static ftoa_out run_ftoa(int kind, uint64_t b, int8_t prec)
@@ -293,7 +324,20 @@ static bool a64_small_budget(const lit &L)
 // Yields the end offset and the correctly rounded value; a string without a mantissa digit converts nothing
 // (end 0, value 0: C11 7.22.1.3p4/p7).
 struct gref { long end; ld val; };
+// per-string cache (exhaustive batches call nine entry points on one string: two glibc conversions instead of 27)
+struct refcache { const uint8_t *s = 0; bool haveg[2] = {false, false}, haver[2] = {false, false}, rok[2] = {false, false}; gref g[2]; ld r[2]; };
+static refcache *g_cache = 0;
+static gref glibc_decimal_raw(const uint8_t *s, bool single);
 static gref glibc_decimal(const uint8_t *s, bool single)
+{
+    if (g_cache && g_cache->s == s)
+    {
+        if (!g_cache->haveg[single]) g_cache->g[single] = glibc_decimal_raw(s, single), g_cache->haveg[single] = true;
+        return g_cache->g[single];
+    }
+    return glibc_decimal_raw(s, single);
+}
+static gref glibc_decimal_raw(const uint8_t *s, bool single)
 {
     gref g{0, 0};
     if (isspace(s[0])) return g;
@@ -305,6 +349,7 @@ static gref glibc_decimal(const uint8_t *s, bool single)
     return g;
 }
 
+static bool atof_within(const lit &L, bool single, bool strict, ld v, bool vnan, ld ref, char *why, size_t nwhy);
 static void check_atof(out &o, const lit &L, bool single, ld v, bool vnan, long end, bool has_end, bool strict = false, const uint8_t *str = 0)
 {
     // "no digits -> no conversion": a literal of the grammar without a mantissa digit ("-", ".", "+.", ".e5") is not a number
@@ -320,36 +365,20 @@ static void check_atof(out &o, const lit &L, bool single, ld v, bool vnan, long 
     }
     ld ref;
     if (nodigits) ref = 0;
-    else if (!ref_value(L, single, &ref)) { o.fail("oracle: glibc did not accept the re-assembled literal"); return; }
-    if (str && !nodigits && !(g.val == ref)) { o.fail("oracle: glibc value of the string differs from glibc value of the re-assembled literal"); return; }
-    if (vnan) { o.fail("result is NaN"); return; }
-    ld top = single ? ldexpl(1, 128) : ldexpl(1, 1024);
-    if (std::isinf(v)) v = v > 0 ? top : -top;
-    if (std::isinf(ref)) ref = ref > 0 ? top : -top;
-    long nfrac = (long)L.fp.size();
-    ld steps, unit, tiny;
-    if (single)
+    else if (g_cache && g_cache->s == str && g_cache->haver[single])
     {
-        steps = 4 + 1.5L * labs(L.ex);
-        unit = ldexpl(1, -24), tiny = ldexpl(1, -149);
+        if (!g_cache->rok[single]) { o.fail("oracle: glibc did not accept the re-assembled literal"); return; }
+        ref = g_cache->r[single];
     }
     else
     {
-        size_t nd = sigdigits(L);
-        long d = L.ex - nfrac;
-        steps = 2 + 2.0L * (nd > 15 ? nd - 15 : 0) + 1.5L * labs(d);
-        if (strict) steps = 4; // op a64u: the property's "within a few ulps of strtod" taken literally
-        unit = ldexpl(1, -53), tiny = ldexpl(1, -1074);
+        bool okr = ref_value(L, single, &ref);
+        if (g_cache && g_cache->s == str) g_cache->haver[single] = true, g_cache->rok[single] = okr, g_cache->r[single] = ref;
+        if (!okr) { o.fail("oracle: glibc did not accept the re-assembled literal"); return; }
     }
-    ld allowed = steps * unit * fabsl(ref) + 2 * tiny;
-    if (!(fabsl(v - ref) <= allowed))
-    {
-        char m[160];
-        snprintf(m, sizeof m, "value off by %.3Lg units of 2^%d*|ref| (allowed %.1Lf)", fabsl(v - ref) / (unit * fabsl(ref) + tiny), single ? -24 : -53, steps);
-        o.fail(m);
-        return;
-    }
-    if ((v < 0) != (ref < 0) && ref != 0) o.fail("sign");
+    if (str && !nodigits && !(g.val == ref)) { o.fail("oracle: glibc value of the string differs from glibc value of the re-assembled literal"); return; }
+    char why[160];
+    if (!atof_within(L, single, strict, v, vnan, ref, why, sizeof why)) o.fail(why);
 }
 
 // ---------------------------------------------------------------------------------------------
@@ -403,6 +432,20 @@ static int entry_index(const std::string &op)
 // is32: the value is a float32_t; single: accuracy of binary32 (is32, or a float widened to double by the
 // WITHOUT_ATOF64 flavour of igris_strtod / strtod / atof)
 struct pres { bool is32 = false, single = false, has_end = true, unset = false; long end = 0; float vf = 0; double vd = 0; };
+// the reader's position after the call.  bind_buffer(ptr, 0) is a public member, but not one the property names:
+// when it is renamed / removed the position is taken from the object representation (the reader holds exactly one
+// `const char *`) - a probe, not a compile error
+template <class R> static const char *reader_position(R &br)
+{
+    const char *q = 0;
+    if constexpr (requires { br.bind_buffer(q, (size_t)0); }) br.bind_buffer(q, 0);
+    else
+    {
+        static_assert(sizeof(R) >= sizeof(const char *));
+        memcpy(&q, &br, sizeof q);
+    }
+    return q;
+}
 static pres call_entry(int k, const char *s)
 {
     pres r;
@@ -420,9 +463,7 @@ static pres call_entry(int k, const char *s)
     {
         igris::binreader br(s);
         br.read_ascii_decimal_float(&r.vf);
-        const char *q;
-        br.bind_buffer(q, 0); // reads the reader's position
-        end = (char *)q;
+        end = (char *)reader_position(br);
         r.is32 = r.single = true;
         break;
     }
@@ -445,16 +486,202 @@ static void judge_entry(out &o, int k, const uint8_t *s, const pres &r, const li
     bool vnan = r.is32 ? std::isnan(r.vf) : std::isnan(r.vd);
     check_atof(o, L, r.single, v, vnan, r.end, r.has_end, k == E_A64U, s);
 }
+// ---------------------------------------------------------------------------------------------
+// ROUND 3b: the TOLERANT observable.  The property grants a parser "a few ulps" and a renderer "one unit of the last
+// printed digit plus the binary representation error": the compared result of an op therefore never carries the
+// routine's own bits / digits but
+//   * the CORRECTLY ROUNDED reference, a function of the input alone (glibc strtod / strtof / printf here, exact
+//     rational arithmetic in the Lean driver),
+//   * what the property fixes exactly (sign, class, END OFFSET, returned pointer, tokens),
+//   * the verdict `within` / `outside`: the routine's own result lies within the allowance of the oracle.
+// A harmless change of the arithmetic keeps the line; a change that leaves the allowance flips the verdict on the
+// real code (and fails the oracle with the input).  Bit-exactness is kept as a statistic: frozen twins of the
+// arithmetic the Lean model transcribes (below) are run next to the real code and the ops are tagged
+// `bits-same-as-frozen-twin` / `bits-differ-from-frozen-twin` (renderers: `text-same-...`).
+static bool atof_within(const lit &L, bool single, bool strict, ld v, bool vnan, ld ref, char *why, size_t nwhy)
+{
+    if (vnan) { if (why) snprintf(why, nwhy, "result is NaN"); return false; }
+    ld top = single ? ldexpl(1, 128) : ldexpl(1, 1024);
+    if (std::isinf(v)) v = v > 0 ? top : -top;
+    if (std::isinf(ref)) ref = ref > 0 ? top : -top;
+    long nfrac = (long)L.fp.size();
+    ld steps, unit, tiny;
+    if (single)
+    {
+        steps = 4 + 1.5L * labs(L.ex);
+        unit = ldexpl(1, -24), tiny = ldexpl(1, -149);
+    }
+    else
+    {
+        size_t nd = sigdigits(L);
+        long d = L.ex - nfrac;
+        steps = 2 + 2.0L * (nd > 15 ? nd - 15 : 0) + 1.5L * labs(d);
+        if (strict) steps = 4; // op a64u: the property's "within a few ulps of strtod" taken literally
+        unit = ldexpl(1, -53), tiny = ldexpl(1, -1074);
+    }
+    ld allowed = steps * unit * fabsl(ref) + 2 * tiny;
+    if (!(fabsl(v - ref) <= allowed))
+    {
+        if (why) snprintf(why, nwhy, "value off by %.3Lg units of 2^%d*|ref| (allowed %.1Lf)", fabsl(v - ref) / (unit * fabsl(ref) + tiny), single ? -24 : -53, steps);
+        return false;
+    }
+    if ((v < 0) != (ref < 0) && ref != 0) { if (why) snprintf(why, nwhy, "sign"); return false; }
+    return true;
+}
+// class codes: 0 edge, 1 nan, 2 +i, 3 -i, 4 +z, 5 -z, 6 +f, 7 -f
+static const char *const CLSNAME[8] = {"edge", "nan", "+i", "-i", "+z", "-z", "+f", "-f"};
+static int cls_of(bool nan, bool inf, bool neg, bool zero)
+{
+    if (nan) return 1;
+    return (inf ? 2 : zero ? 4 : 6) + (neg ? 1 : 0);
+}
+
+// frozen twins: the arithmetic of igris_atof64 / igris_atof32 / igris_f32toa as the Lean model transcribes it
+// (statistics only; never part of the compared result or of the oracle)
+static double twin_atof64(const char *p)
+{
+    double val = 0.0;
+    int d = 0, sign = 1;
+    { const char *q = p; if (*q == '+' || *q == '-') q++; if (*q == '.') q++; if (!(*q >= '0' && *q <= '9')) return 0.0; }
+    if (*p == '+') p++; else if (*p == '-') sign = -1, p++;
+    while (*p >= '0' && *p <= '9') val = val * 10.0 + (*p - '0'), p++;
+    if (*p == '.') { p++; while (*p >= '0' && *p <= '9') val = val * 10.0 + (*p - '0'), p++, d--; }
+    if (*p == 'e' || *p == 'E')
+    {
+        const char *e = p + 1;
+        int es = 1, ev = 0;
+        if (*e == '+') e++; else if (*e == '-') e++, es = -1;
+        if (*e >= '0' && *e <= '9')
+        {
+            while (*e >= '0' && *e <= '9') { if (ev < 100000) ev = ev * 10 + (*e - '0'); e++; }
+            d += ev * es;
+        }
+    }
+    while (d > 0) val *= 10.0, d--;
+    while (d < 0) val *= 0.1, d++;
+    return sign * val;
+}
+static float twin_atof32(const char *p)
+{
+    { const char *q = p; if (*q == '+' || *q == '-') q++; if (*q == '.') q++; if (!(*q >= '0' && *q <= '9')) return 0; }
+    bool minus = false;
+    if (*p == '+') p++; else if (*p == '-') minus = true, p++;
+    uint32_t u = 0;
+    while (*p >= '0' && *p <= '9') u = u * 10 + (uint32_t)(*p - '0'), p++;
+    float ret = (float)u;
+    if (*p == '.')
+    {
+        p++;
+        uint64_t dd = 0, pw = 1;
+        int n = 0;
+        while (*p >= '0' && *p <= '9') dd = dd * 10 + (uint64_t)(*p - '0'), p++, n++;
+        if (n > 18) return NAN; // the recorded class (signed overflow in the real code)
+        while (n--) pw *= 10;
+        ret = (float)u + (float)((double)(int64_t)dd / (double)(int64_t)pw);
+    }
+    if (*p == 'e' || *p == 'E')
+    {
+        const char *e = p + 1;
+        int es = 1, ev = 0;
+        if (*e == '+') e++; else if (*e == '-') e++, es = -1;
+        if (*e >= '0' && *e <= '9')
+        {
+            while (*e >= '0' && *e <= '9') { if (ev < 100000) ev = ev * 10 + (*e - '0'); e++; }
+            if (es > 0) while (ev--) ret *= 10.0f;
+            else while (ev--) ret /= 10.0f;
+        }
+    }
+    return minus ? -ret : ret;
+}
+static std::string twin_f32toa(float f, int8_t precision)
+{
+    std::string t;
+    if (std::isinf(f)) return f > 0 ? "+inf" : "-inf";
+    if (std::isnan(f)) return "nan";
+    if (precision > 10) precision = 10;
+    if (f < 0) f = -f, t.push_back('-');
+    if (precision < 0) precision = (int8_t)auto_prec(f);
+    if (precision) f += (float)strtod(("0.5e-" + std::to_string((int)precision)).c_str(), 0);
+    if (!(f < 2147483648.0f)) return "?";
+    int32_t ip = (int32_t)f;
+    f -= ip;
+    t += std::to_string(ip);
+    if (precision)
+    {
+        t.push_back('.');
+        while (precision--)
+        {
+            f *= 10.0;
+            char c = (char)f;
+            t.push_back((char)('0' + c));
+            f -= c;
+        }
+    }
+    return t;
+}
+
+// the compared result of a parser op (see above) as a record, and as the text of a result line
+struct prec_t { uint64_t refbits; int refbytes; int cls; bool ok; };
+static prec_t canon_parse_rec(const uint8_t *s, const pres &r, const lit &L, bool strict)
+{
+    prec_t c;
+    gref g = glibc_decimal(s, r.single);
+    bool hasdig = !(L.ip.empty() && L.fp.empty());
+    ld ref = hasdig ? g.val : 0.0L;
+    bool edge;
+    bool sig = sigdigits(L) > 0;
+    if (r.single)
+    {
+        float rf = (float)ref;
+        uint32_t mag = bits(rf) & 0x7fffffffu;
+        edge = sig && (mag <= 8 || mag >= 0x7f000000u);
+        c.refbytes = r.is32 ? 4 : 8;
+        c.refbits = r.is32 ? (uint64_t)bits(rf) : bits((double)rf);
+    }
+    else
+    {
+        double rd = (double)ref;
+        uint64_t mag = bits(rd) & 0x7fffffffffffffffull;
+        edge = sig && (mag <= 8 || mag >= 0x7fe0000000000000ull);
+        c.refbytes = 8, c.refbits = bits(rd);
+    }
+    c.cls = edge ? 0
+            : r.is32 ? cls_of(std::isnan(r.vf), std::isinf(r.vf), std::signbit(r.vf), r.vf == 0)
+                     : cls_of(std::isnan(r.vd), std::isinf(r.vd), std::signbit(r.vd), r.vd == 0);
+    ld v = r.is32 ? (ld)r.vf : (ld)r.vd;
+    bool vnan = r.is32 ? std::isnan(r.vf) : std::isnan(r.vd);
+    c.ok = atof_within(L, r.single, strict, v, vnan, ref, 0, 0);
+    return c;
+}
+static std::string canon_parse(const uint8_t *s, const pres &r, const lit &L, bool strict)
+{
+    prec_t c = canon_parse_rec(s, r, L, strict);
+    std::string line = hexn(c.refbits, c.refbytes * 2) + " " + CLSNAME[c.cls];
+    if (r.has_end) line += r.unset ? std::string(" e-unset") : " e" + std::to_string(r.end);
+    return line + (c.ok ? " within" : " outside");
+}
+// statistics: is the real code bit-identical to the frozen twin of the model's arithmetic?
+static bool same_as_twin(int k, const char *s, const pres &r)
+{
+    if (r.single)
+    {
+        float t = twin_atof32(s), v = r.is32 ? r.vf : (float)r.vd;
+        return !std::isnan(t) && !std::isnan(v) && bits(t) == bits(v);
+    }
+    (void)k;
+    double t = twin_atof64(s);
+    return !std::isnan(r.vd) && bits(t) == bits(r.vd);
+}
 static void run_parse_op(out &o, const std::string &op, const bytes &m)
 {
     int k = entry_index(op);
     exact_buf s(m);
     lit L = match_literal(s.p);
     pres r = call_entry(k, (const char *)s.p);
-    o.result = r.is32 ? fbits(r.vf) : dbits(r.vd);
-    if (r.has_end) o.result += r.unset ? std::string(" e-unset") : " e" + std::to_string(r.end);
+    o.result = canon_parse(s.p, r, L, k == E_A64U);
     judge_entry(o, k, s.p, r, L);
     o.tag(op.c_str());
+    o.tag(same_as_twin(k, (const char *)s.p, r) ? "bits-same-as-frozen-twin" : "bits-differ-from-frozen-twin");
     if (L.sign) o.tag(L.neg ? "minus" : "plus");
     if (L.ip.empty()) o.tag("no-integer-digits");
     if (L.ip.empty() && L.fp.empty()) o.tag("no-digits-no-conversion");
@@ -476,26 +703,21 @@ static bytes gx_string(int len, uint64_t c)
     return m;
 }
 
+static const int PM_ENTRY[5] = {E_A64, E_A32, E_ISTD, E_STRTOD, E_ISTD32};
+static const char *const PM_TEXT[5] = {"-12.5e-1x", "3.25e1", "7.", ".5e1", "2.5"};
 // calls made BEFORE main(): the constructor of an object with init_priority(101) runs ahead of every ordinary
 // static initialiser of the program (static-initialisation-order dependencies of the routines would show here)
 struct premain_t
 {
-    double v64, vstd, vlibc, vstd32;
-    float v32;
-    long e64, e32, estd, elibc, estd32;
+    pres r[5];
     char t32[48], tftoa[48];
+    long ret32, retftoa;
     premain_t()
     {
-        char *e;
-        const char *s;
-        s = "-12.5e-1x", v64 = igris_atof64(s, &e), e64 = e - s;
-        s = "3.25e1", v32 = igris_atof32(s, &e), e32 = e - s;
-        s = "7.", vstd = igris_strtod(s, &e), estd = e - s;
-        s = ".5e1", vlibc = igv_strtod(s, &e), elibc = e - s;
-        s = "2.5", vstd32 = igv32_igris_strtod(s, &e), estd32 = e - s;
+        for (int i = 0; i < 5; i++) r[i] = call_entry(PM_ENTRY[i], PM_TEXT[i]);
         memset(t32, 0, sizeof t32), memset(tftoa, 0, sizeof tftoa);
-        igris_f32toa(0.1f, t32, 6);
-        igris_ftoa(1234.5678, tftoa, -1);
+        ret32 = igris_f32toa(0.1f, t32, 6) - t32;
+        retftoa = igris_ftoa(1234.5678, tftoa, -1) - tftoa;
     }
 };
 static premain_t g_premain __attribute__((init_priority(101)));
@@ -548,21 +770,44 @@ static std::string do_sf(const std::vector<std::string> &w)
 // ---------------------------------------------------------------------------------------------
 static void run_op(const std::vector<std::string> &w, const std::string &, out &o)
 {
-    hv::arm(20);
+    // per-op watchdog: 20 s; the oracle-only sweeps of 2^16 patterns x 6 precisions (2-3 s on an idle machine) get 90 s -
+    // on the shared machine (load average 60-200) ten of them were descheduled beyond 20 s in a thorough run (round 3b)
+    hv::arm(!w.empty() && w[0] == "sweep" ? 90 : 20);
     if (w.empty()) { o.result = "bad-op"; return; }
     const std::string &op = w[0];
     if (op == "tbl")
     {
+        // ROUND 3b.  What the property fixes is the BEHAVIOUR the table produces (precisions 0..10, round half up at
+        // every precision), not a table: the compared result is the clamp measured by rendering with precision 127 and,
+        // for every precision p, the canonical lines of 0.55e-p (must round up) and 0.45e-p (must round down).  The
+        // table itself - when numconvert.c still has a `static const double rounders[]` - is a TAG.
+        int mp = measured_max_precision();
+        o.result = "maxprec=" + std::to_string(mp);
+        for (int p = 1; p <= 10; p++)
+            for (const char *m : {"0.55e-", "0.45e-"})
+            {
+                float f = (float)strtod((m + std::to_string(p)).c_str(), 0);
+                ftoa_out r = run_ftoa(0, bits(f), (int8_t)p);
+                const char *why = check_ftoa_text(f, f, p, r.text.data(), r.text.size(), false);
+                o.result += " " + canon_ftoa(f, f, p, r.ret, !why);
+                if (why || !r.clean || r.ret) o.fail(std::string(why ? why : "buffer / returned pointer") + " at " + m + std::to_string(p) + " text=`" + r.text + "`");
+            }
+        if (mp != 10) o.fail("precisions are clamped to " + std::to_string(mp) + ", the property renders 0..10");
         const double *t = igv_rounders();
-        std::string s = std::to_string(igv_max_precision());
-        for (int i = 0; i <= igv_max_precision(); i++)
+        int macro = igv_max_precision();
+        o.tag(macro < 0 ? "MAX_PRECISION-macro-not-found" : macro == mp ? "MAX_PRECISION-macro-agrees" : "MAX_PRECISION-macro-differs-from-behaviour");
+        if (t[0] == 0) o.tag("rounders-table-not-found");
+        else
         {
-            s += " " + dbits(t[i]) + ":" + fbits((float)t[i]);
-            // oracle: the entry is the double nearest to 0.5 * 10^-i
-            std::string lit = "0.5e-" + std::to_string(i);
-            if (t[i] != strtod(lit.c_str(), 0)) o.fail("rounders[" + std::to_string(i) + "] is not 0.5e-" + std::to_string(i));
+            bool as_modelled = true;
+            for (int i = 0; i <= (macro < 0 ? 0 : macro); i++)
+            {
+                // oracle (only while the table exists): the entry is the double nearest to 0.5 * 10^-i
+                std::string lit = "0.5e-" + std::to_string(i);
+                if (t[i] != strtod(lit.c_str(), 0)) as_modelled = false, o.fail("rounders[" + std::to_string(i) + "] is not 0.5e-" + std::to_string(i));
+            }
+            o.tag(as_modelled ? "rounders-table-as-modelled" : "rounders-table-differs");
         }
-        o.result = s;
         return;
     }
     if (op == "f32" || op == "f64" || op == "ftoa" || op == "ftoa32")
@@ -571,7 +816,6 @@ static void run_op(const std::vector<std::string> &w, const std::string &, out &
         uint64_t b = strtoull(w[1].c_str(), 0, 16);
         int prec = atoi(w[2].c_str());
         ftoa_out r = run_ftoa(kind, b, (int8_t)prec);
-        o.result = hex(r.text) + " r" + std::to_string(r.ret);
         ld x = kind == 0 ? (ld)f_of((uint32_t)b) : (ld)d_of(b);
         float fx = kind == 0 ? f_of((uint32_t)b) : (float)d_of(b);
         if (!r.clean) o.fail("bytes behind the terminating NUL were written, or the two runs differ");
@@ -579,8 +823,10 @@ static void run_op(const std::vector<std::string> &w, const std::string &, out &
         if (r.ret != 0) o.fail("the returned pointer is buf+" + std::to_string(r.ret) + ", not buf");
         bool carry = false;
         const char *why = check_ftoa_text(x, fx, (int8_t)prec, r.text.data(), r.text.size(), kind != 0, &carry);
+        o.result = canon_ftoa(x, fx, (int8_t)prec, r.ret, !why);
         if (why) o.fail(std::string(why) + " text=`" + r.text + "`");
         o.tag(op.c_str());
+        o.tag(twin_f32toa(fx, (int8_t)prec) == r.text ? "text-same-as-frozen-twin" : "text-differs-from-frozen-twin");
         if (std::isnan(fx) || std::isinf(fx)) o.tag("token");
         else
         {
@@ -606,23 +852,24 @@ static void run_op(const std::vector<std::string> &w, const std::string &, out &
         uint32_t start = (uint32_t)strtoull(w[1].c_str(), 0, 16);
         uint64_t n = strtoull(w[2].c_str(), 0, 10), stride = strtoull(w[3].c_str(), 0, 10);
         int prec = atoi(w[4].c_str());
-        uint64_t h = 0xcbf29ce484222325ull, done = 0;
+        uint64_t h = 0xcbf29ce484222325ull, done = 0, twin_diff = 0;
         for (uint64_t k = 0; k < n; k++)
         {
             uint32_t b = (uint32_t)(start + k * stride);
             if (f32_out_of_range(b)) continue;
             ftoa_out r = run_ftoa(0, b, (int8_t)prec);
-            h = fnv(h, r.text.data(), r.text.size());
-            uint8_t z[2] = {0, (uint8_t)r.ret};
-            h = fnv(h, z, 2);
             if (!r.clean) o.fail("write behind the NUL at " + hexn(b, 8));
             const char *why = check_ftoa_text(f_of(b), f_of(b), (int8_t)prec, r.text.data(), r.text.size(), false);
+            std::string line = canon_ftoa(f_of(b), f_of(b), (int8_t)prec, r.ret, !why);
+            h = fnv(h, line.data(), line.size());
+            if (twin_f32toa(f_of(b), (int8_t)prec) != r.text) twin_diff++;
             if (why) o.fail(std::string(why) + " at " + hexn(b, 8) + " text=`" + r.text + "`");
             if (r.ret) o.fail("returned pointer at " + hexn(b, 8));
             done++;
         }
         o.result = hexn(h, 16) + " " + std::to_string(done);
         o.tag("hashed-range");
+        o.tag(twin_diff ? "text-differs-from-frozen-twin" : "text-same-as-frozen-twin");
         return;
     }
     if (op == "sweep")
@@ -678,24 +925,32 @@ static void run_op(const std::vector<std::string> &w, const std::string &, out &
     if ((op == "gx" || op == "gxo") && w.size() >= 4)
     {
         // gx LEN START COUNT: the strings number START .. START+COUNT-1 of length LEN over the alphabet GXA,
-        // through EVERY entry point; result = FNV-1a over (value bits, end offset) of the nine entry points
+        // through EVERY entry point; result = FNV-1a over the canonical records (canon_parse_rec: reference bits, class, end offset, verdict) of the nine entry points
         int len = atoi(w[1].c_str());
         uint64_t c0 = strtoull(w[2].c_str(), 0, 10), cnt = strtoull(w[3].c_str(), 0, 10);
-        uint64_t h = 0xcbf29ce484222325ull;
+        uint64_t h = 0xcbf29ce484222325ull, twin_diff = 0;
         for (uint64_t c = c0; c < c0 + cnt; c++)
         {
             bytes m = gx_string(len, c);
             exact_buf s(m);
             lit L = match_literal(s.p);
+            refcache cache;
+            cache.s = s.p, g_cache = &cache;
             for (int k = 0; k < E_HASHED; k++)
             {
                 pres r = call_entry(k, (const char *)s.p);
-                uint8_t rec[10];
-                size_t n = 0;
-                if (r.is32) { uint32_t b = std::isnan(r.vf) ? 0xffffffffu : bits(r.vf); memcpy(rec, &b, 4), n = 4; }
-                else { uint64_t b = std::isnan(r.vd) ? ~0ull : bits(r.vd); memcpy(rec, &b, 8), n = 8; }
-                rec[n++] = r.has_end ? (r.unset ? 0xfe : (uint8_t)r.end) : 0xff;
-                h = fnv(h, rec, n);
+                if (op == "gx")
+                {
+                    prec_t c = canon_parse_rec(s.p, r, L, false);
+                    uint8_t rec[12];
+                    memcpy(rec, &c.refbits, 8); // little-endian
+                    size_t n = (size_t)c.refbytes;
+                    rec[n++] = (uint8_t)c.cls;
+                    rec[n++] = r.has_end ? (r.unset ? 0xfe : (uint8_t)r.end) : 0xff;
+                    rec[n++] = c.ok ? 1 : 0;
+                    h = fnv(h, rec, n);
+                }
+                if (!same_as_twin(k, (const char *)s.p, r)) twin_diff++;
                 if (o.oracle == "ok")
                 {
                     out t;
@@ -703,10 +958,12 @@ static void run_op(const std::vector<std::string> &w, const std::string &, out &
                     if (t.oracle != "ok") o.fail(std::string(ENAME[k]) + " " + hex(m) + ": " + t.oracle.substr(5));
                 }
             }
+            g_cache = 0;
         }
         o.result = op == "gx" ? hexn(h, 16) + " " + std::to_string(cnt) : "judged " + std::to_string(cnt);
         o.tag(op == "gx" ? "exhaustive-small-strings" : "exhaustive-small-strings-oracle-only");
         o.tag(("gx-len-" + std::to_string(len)).c_str());
+        o.tag(twin_diff ? "bits-differ-from-frozen-twin" : "bits-same-as-frozen-twin");
         return;
     }
     if (op == "sz")
@@ -717,7 +974,7 @@ static void run_op(const std::vector<std::string> &w, const std::string &, out &
                    " atof32=" + std::to_string(sizeof(igris_atof32("0", &e))) + " atof64=" + std::to_string(sizeof(igris_atof64("0", &e))) +
                    " strtod=" + std::to_string(sizeof(igris_strtod("0", &e))) + " strtod32=" + std::to_string(sizeof(igv32_igris_strtod("0", &e))) +
                    " ftoa32arg=" + std::to_string(igv32_sizeof_ftoa_arg()) + " int=" + std::to_string(sizeof(int)) +
-                   " maxprec=" + std::to_string(igv_max_precision());
+                   " maxprec=" + std::to_string(measured_max_precision());
         return;
     }
     if (op == "premain")
@@ -725,12 +982,19 @@ static void run_op(const std::vector<std::string> &w, const std::string &, out &
         // results of calls made from a constructor with init_priority(101), i.e. before main() and before
         // every ordinary static initialiser
         const premain_t &P = g_premain;
-        o.result = "a64=" + dbits(P.v64) + " e" + std::to_string(P.e64) + " a32=" + fbits(P.v32) + " e" + std::to_string(P.e32) +
-                   " istd=" + dbits(P.vstd) + " e" + std::to_string(P.estd) + " strtod=" + dbits(P.vlibc) + " e" + std::to_string(P.elibc) +
-                   " istd32=" + dbits(P.vstd32) + " e" + std::to_string(P.estd32) + " f32=" + hex(std::string(P.t32)) + " ftoa=" + hex(std::string(P.tftoa));
-        if (!(P.v64 == -1.25 && P.e64 == 8 && P.v32 == 32.5f && P.e32 == 6 && P.vstd == 7.0 && P.estd == 2 && P.vlibc == 5.0 && P.elibc == 4 &&
-              P.vstd32 == 2.5 && P.estd32 == 3 && !strcmp(P.t32, "0.100000") && !strcmp(P.tftoa, "1234.57")))
-            o.fail("a call made before main() gave a wrong result");
+        static const char *const NAME[5] = {"a64", "a32", "istd", "strtod", "istd32"};
+        for (int i = 0; i < 5; i++)
+        {
+            lit L = match_literal((const uint8_t *)PM_TEXT[i]);
+            o.result += std::string(i ? " " : "") + NAME[i] + "=" + canon_parse((const uint8_t *)PM_TEXT[i], P.r[i], L, false);
+            out t;
+            judge_entry(t, PM_ENTRY[i], (const uint8_t *)PM_TEXT[i], P.r[i], L);
+            if (t.oracle != "ok" && o.oracle == "ok") o.fail(std::string("a call made before main() gave a wrong result: ") + NAME[i] + " " + PM_TEXT[i] + ": " + t.oracle.substr(5));
+        }
+        const char *w1 = P.ret32 ? "returned-pointer" : check_ftoa_text(0.1f, 0.1f, 6, P.t32, strlen(P.t32), false);
+        const char *w2 = P.retftoa ? "returned-pointer" : check_ftoa_text(1234.5678, (float)1234.5678, -1, P.tftoa, strlen(P.tftoa), true);
+        o.result += " f32=" + canon_ftoa(0.1f, 0.1f, 6, P.ret32, !w1) + " ftoa=" + canon_ftoa(1234.5678, (float)1234.5678, -1, P.retftoa, !w2);
+        if ((w1 || w2) && o.oracle == "ok") o.fail(std::string("a call made before main() gave a wrong result: ") + (w1 ? w1 : w2) + " text=`" + (w1 ? P.t32 : P.tftoa) + "`");
         o.tag("before-main");
         return;
     }
@@ -742,8 +1006,12 @@ static void run_op(const std::vector<std::string> &w, const std::string &, out &
         double x;
         if (op == "dpd") x = d_of(b), debug_printdec_double_prec(x, prec);
         else x = f_of((uint32_t)b), debug_printdec_float_prec(f_of((uint32_t)b), prec);
-        o.result = hex(g_out);
         const char *why = check_dprint(x, prec, g_out);
+        {
+            std::string c = std::isnan(x) ? "nan" : std::isinf(x) ? (x > 0 ? "+inf" : "-inf") : canon_dec(x, prec < 0 ? 0 : prec > 18 ? 18 : prec);
+            o.result = hex(c) + (why ? " outside" : " within");
+            o.tag(c == g_out ? "same-as-glibc" : "differs-from-glibc-within-bound");
+        }
         if (why) o.fail(std::string(why) + " text=`" + g_out + "`");
         o.tag(op.c_str());
         if (x < 0) o.tag("negative");
@@ -942,6 +1210,18 @@ static void gen(rng &r, const std::string &tier)
         bool oor = f32_out_of_range(bits(fx)) || (std::isinf(fx) && std::isfinite(d));
         printf("%sf64 %016llx %d\n", oor ? "@F:C12-ftoa-int32-range " : "", (unsigned long long)bits(d), 3);
     }
+    // round 3b: doubles from 100000 up whose FRACTION rounds up to 1.0 at the requested precision (the carry has to
+    // reach the integer digits), and floats of the same kind
+    for (int i = 0; i < (th ? 600 : 160); i++)
+    {
+        int p = 1 + (int)r.below(3);
+        uint64_t k = 100000 + r.below(r.chance(50) ? 900000 : 8000000);
+        double d = (double)k + 1.0 - 0.5 * pow(10.0, -p) + (double)r.range(-2, 6) / 1024.0;
+        if (r.chance(30)) d = -d;
+        const char *kd = r.chance(40) ? "f64" : r.chance(50) ? "ftoa" : "ftoa32";
+        if (r.chance(20)) printf("f32 %08x %d\n", bits((float)d), p);
+        else printf("%s %016llx %d\n", kd, (unsigned long long)bits(d), r.chance(85) ? p : pick_prec(r));
+    }
     // ---------------- (2) hashed ranges model vs code
     {
         int nr = th ? 60 : 24;
@@ -1009,6 +1289,21 @@ static void gen(rng &r, const std::string &tier)
         }
         emit_lit(kind, tail(s));
     }
+    // round 3b: fractions that begin with zeros (integer part 0 or absent): the significant digits lie behind the
+    // 9th / 15th fraction position
+    for (int i = 0; i < (th ? 1200 : 300); i++)
+    {
+        std::string kind = KINDS[r.below(sizeof KINDS / sizeof *KINDS)];
+        bool single = kind[1] == '3' || kind == "brf" || kind.find("32") != std::string::npos;
+        std::string s;
+        if (r.chance(30)) s += r.chance(70) ? "-" : "+";
+        if (r.chance(60)) s += r.chance(80) ? "0" : "00";
+        size_t nz = 1 + r.below(single ? 10 : 14);
+        size_t nd = 1 + r.below(single ? 18 - nz : 22);
+        s += "." + std::string(nz, '0') + digits_str(r, nd, false);
+        if (r.chance(25)) s += (r.chance(50) ? "e" : "E") + std::string(r.chance(50) ? "-" : "") + std::to_string(r.below(12));
+        emit_lit(kind, r.chance(80) ? s : tail(s));
+    }
     // round trip of rendered values and classic literals
     for (const char *c : {"1e-2", "1E-2", "1e+2", "1.5", "-1.5", "+1.5", ".5", "-.5", "1e5", "abc", "", "1.", "0", "-0", "-0.0", "1e", "1e+", "1ex",
                           "-", "+", ".", "e5", "1.5e3", "1E-3", "0.1e1", "307582293.333333", "56789", "-56789", "42", "3.14159265358979",
@@ -1026,7 +1321,7 @@ static void gen(rng &r, const std::string &tier)
     // ---------------- (3b) exhaustive: EVERY string of length <= 6 (thorough: 7) over {+ - . e E 0 1 9 space x}
     // through EVERY entry point (op gx: hashed batches; the oracle judges every string)
     {
-        // quick: lengths 0..5 and a seed-dependent tenth of length 6 through model AND code (gx), the rest of
+        // quick: lengths 0..5 and a seed-dependent 16th of length 6 through model AND code (gx), the rest of
         // length 6 judged by the oracle only (gxo); thorough: all of length 6 and a 16th of length 7 per seed through both
         const uint64_t B = 4000;
         uint64_t total = 1;
@@ -1035,7 +1330,7 @@ static void gen(rng &r, const std::string &tier)
         if (!th)
         {
             for (uint64_t c = 0, i = 0; c < 1000000; c += B, i++)
-                printf("%s 6 %llu %llu\n", i % 10 == g_seed % 10 ? "gx" : "gxo", (unsigned long long)c, (unsigned long long)B);
+                printf("%s 6 %llu %llu\n", i % 16 == g_seed % 16 ? "gx" : "gxo", (unsigned long long)c, (unsigned long long)B); // round 3b: a 16th (was a tenth) through the model
         }
         else
         {
@@ -1084,7 +1379,7 @@ static void gen(rng &r, const std::string &tier)
             nth++;
             lng(k, {{"0", K}, {"1", 1}, {".", 1}, {"5", 1}});
             lng(k, {{"1", 1}, {"e", 1}, {"0", K}, {"5", 1}, {"x", 1}});
-            lng(k, {{"1", 1}, {"e", 1}, {"-", 1}, {"9", th || nth == 1 ? K : 5}});
+            lng(k, {{"1", 1}, {"e", 1}, {"-", 1}, {"9", th ? K : 5}}); // round 3b: the 300 KiB exponent of nines (10^6 scaling steps) of the float parser only in the thorough tier (quick: igris_atof64)
             lng(k, {{"-", 1}, {"0", 900}, {"4", 1}, {"2", 1}, {".", 1}, {"0", 17}, {"1", 1}, {"E", 1}, {"0", 50}, {"2", 1}});
             if (nth == 1) lng(k, {{"0", 1}, {".", 1}, {"0", 3000}, {"1", 1}}, "C12-atof32-digit-count");
         }
